@@ -34,6 +34,7 @@ type Cfg struct {
 	Status  bool   `json:"status"`
 	Prompt  bool   `json:"prompt"`
 	Collide bool   `json:"collide"`
+	Reinc   bool   `json:"reinc"`
 }
 
 type Step struct {
@@ -61,7 +62,7 @@ func b2s(b bool) string {
 }
 
 func (c Cfg) tla() string {
-	return fmt.Sprintf(`[method |-> "%s", gen |-> %s, status |-> %s, prompt |-> %s, collide |-> %s]`, c.Method, b2s(c.Gen), b2s(c.Status), b2s(c.Prompt), b2s(c.Collide))
+	return fmt.Sprintf(`[method |-> "%s", gen |-> %s, status |-> %s, prompt |-> %s, collide |-> %s, reinc |-> %s]`, c.Method, b2s(c.Gen), b2s(c.Status), b2s(c.Prompt), b2s(c.Collide), b2s(c.Reinc))
 }
 
 func (s Step) tla() string {
@@ -115,6 +116,9 @@ func taskfile(c Cfg) string {
 	t, u := names(c)
 	for _, n := range []string{t, u} {
 		fmt.Fprintf(&b, "  '%s':\n    desc: task %s\n    method: %s\n    sources:\n      - '*.txt'\n      - exclude: x.txt\n", n, n, c.Method)
+		if c.Reinc {
+			b.WriteString("      - 'x.txt'\n")
+		}
 		if c.Gen {
 			b.WriteString("    generates: [out.gen]\n")
 		}
@@ -124,12 +128,13 @@ func taskfile(c Cfg) string {
 		if c.Prompt {
 			b.WriteString("    prompt: 'go?'\n")
 		}
-		b.WriteString("    cmds:\n      - echo 1 >> \"$TRACE\"\n      - test ! -f \"$CTL/fail1\"\n      - test ! -f \"$CTL/kill1\" || sh -c 'kill -KILL $PPID'\n")
+		b.WriteString("    cmds:\n      - echo 1 >> \"$TRACE\"\n      - task: pre\n      - test ! -f \"$CTL/fail1\"\n      - test ! -f \"$CTL/kill1\" || sh -c 'kill -KILL $PPID'\n")
 		if c.Gen {
 			b.WriteString("      - touch out.gen\n")
 		}
 		b.WriteString("      - echo 2 >> \"$TRACE\"\n      - test ! -f \"$CTL/fail2\"\n      - test ! -f \"$CTL/kill2\" || sh -c 'kill -KILL $PPID'\n")
 	}
+	b.WriteString("  pre:\n    preconditions:\n      - test ! -f \"$CTL/failpre\"\n")
 	b.WriteString("  d:\n    dir: ./newdir\n    cmds:\n      - echo 3 >> \"$TRACE\"\n")
 	return b.String()
 }
@@ -227,7 +232,7 @@ func Execute(h *History) error {
 				args = []string{t}
 			case "other":
 				args = []string{u}
-			case "fail1", "fail2", "kill1", "kill2":
+			case "fail1", "fail2", "failpre", "kill1", "kill2":
 				args = []string{t}
 				ctlFile = filepath.Join(ctl, s.Mode)
 			case "prompt":
@@ -350,7 +355,7 @@ func (w *world) apply(s Step, c Cfg) {
 var fileOps = []Step{{Op: "edit", F: "a"}, {Op: "touch", F: "a"}, {Op: "add", F: "b"}, {Op: "addold", F: "b"}, {Op: "rm", F: "a"},
 	{Op: "ren", F: "a", G: "b"}, {Op: "edit", F: "x"}, {Op: "touch", F: "x"}, {Op: "rm", F: "x"}, {Op: "rmgen"}, {Op: "flip"}}
 
-var allModes = []string{"run", "other", "fail1", "fail2", "kill1", "kill2", "prompt", "force", "dry", "status", "list", "listjson", "summary", "drydir"}
+var allModes = []string{"run", "other", "fail1", "fail2", "failpre", "kill1", "kill2", "prompt", "force", "dry", "status", "list", "listjson", "summary", "drydir"}
 
 func inv(m string) Step { return Step{Op: "inv", Mode: m} }
 
@@ -383,6 +388,8 @@ func configs() []Cfg {
 		cs = append(cs, Cfg{Method: m, Gen: true, Prompt: true})
 		cs = append(cs, Cfg{Method: m, Prompt: true})
 		cs = append(cs, Cfg{Method: m, Collide: true})
+		cs = append(cs, Cfg{Method: m, Reinc: true})
+		cs = append(cs, Cfg{Method: m, Gen: true, Reinc: true})
 	}
 	return cs
 }
@@ -525,7 +532,7 @@ func Pretty(h History) string {
 		}
 	}
 	c := h.Cfg
-	return fmt.Sprintf("[%s gen=%v status=%v prompt=%v collide=%v] %s", c.Method, c.Gen, c.Status, c.Prompt, c.Collide, strings.Join(p, " ; "))
+	return fmt.Sprintf("[%s gen=%v status=%v prompt=%v collide=%v reinclude-x=%v] %s", c.Method, c.Gen, c.Status, c.Prompt, c.Collide, c.Reinc, strings.Join(p, " ; "))
 }
 
 var _ = runtime.NumCPU
